@@ -68,7 +68,8 @@ pub fn golden_histories() -> Vec<(String, History)> {
                     kt,
                     params: Params::plain(Buckets::Capacity(4)),
                     keys: keys.clone(),
-                }],
+                late: false,
+            }],
                 ops,
                 obs: Obs::default(),
                 excluded: 0,
@@ -114,7 +115,8 @@ pub fn golden_histories() -> Vec<(String, History)> {
                     kt,
                     params: Params::plain(Buckets::BucketsSize(128)),
                     keys: keys.clone(),
-                }],
+                late: false,
+            }],
                 ops,
                 obs: Obs::default(),
                 excluded: 0,
@@ -150,7 +152,8 @@ pub fn golden_histories() -> Vec<(String, History)> {
                     kt,
                     params: Params::plain(Buckets::Capacity(900)),
                     keys,
-                }],
+                late: false,
+            }],
                 ops,
                 obs: Obs::default(),
                 excluded: 0,
@@ -402,7 +405,8 @@ fn run_cont(c: &C12Cont, w: &WCtx) -> Result<Report, Failure> {
             kt: exp.kt,
             params: c.params,
             keys: cont_keys(&gh),
-        }],
+                late: false,
+            }],
         ops: c
             .ops
             .iter()
